@@ -294,6 +294,26 @@ def _assemble(pym, cls, dom, xv, **kw):
     return m, m.sig_out[0].state
 
 
+MAGNITUDES = [1e-13, 1e13]
+
+
+def _magnitude_check(ctx, pym, cls, dom, xv, kw, key, kind):
+    """the assembled matrix is linear in the material constant: assembling with the constant scaled by 1e-13 or 1e13
+    gives the scaled matrix (vacuum permittivity on millimetre elements, stiffness in Pa on metre elements)"""
+    _, A1 = _assemble(pym, cls, dom, xv, **kw)
+    A1 = np.asarray(dense(A1))
+    for sc in MAGNITUDES:
+        kw2 = dict(kw)
+        kw2[key] = kw[key] * sc
+        m, As = _assemble(pym, cls, dom, xv, **kw2)
+        ctx.ntrans += 1
+        ctx.nstates += 1
+        As = np.asarray(dense(As)) / sc
+        err = maxabs(As - A1)
+        ctx.chk(err <= 1e-9 * maxabs(A1), 'linear_in_material_constant', kind, {'magnitude': f'{sc:g}', 'phase': 'physics'},
+                err=err, scale=maxabs(A1), constant=kw2[key])
+
+
 def _options_sweep(ctx, pym, cls, dom, grid, ndof, elmat_of, base_kw, tab, bcs, consts, mtypes, xs, kind,
                    stiffness_physics=False):
     nx, ny, nz = grid
@@ -479,6 +499,9 @@ def _execute(case):
     if kind == 'stiffness':
         mats = [(E, nu, pl) for E in E_LIST for nu in NU_LIST for pl in (('strain', 'stress') if dim == 2 else ('strain',))]
         rbm = fe.rigid_body_modes(pos)
+        if phase != 'options' and (not case.get('only') or 'magnitude' in case['only']):
+            _magnitude_check(ctx, pym, pym.AssembleStiffness, dom, x_vector(X_RED[0], nel, tab),
+                             dict(e_modulus=mats[0][0], poisson_ratio=mats[0][1], plane=mats[0][2]), 'e_modulus', kind)
         for im, (E, nu, pl) in enumerate(mats):
             if phase == 'options' or _only(case, mat=im):
                 continue
@@ -543,6 +566,9 @@ def _execute(case):
 
     if kind == 'mass':
         mats = [(rho, nd) for rho in RHO_LIST for nd in (1, 2, 3)]
+        if phase != 'options' and (not case.get('only') or 'magnitude' in case['only']):
+            _magnitude_check(ctx, pym, pym.AssembleMass, dom, x_vector(X_RED[0], nel, tab),
+                             dict(material_property=RHO_LIST[0], ndof=2), 'material_property', kind)
         for im, (rho, nd) in enumerate(mats):
             if phase == 'options' or _only(case, mat=im):
                 continue
@@ -585,6 +611,9 @@ def _execute(case):
 
     if kind == 'poisson':
         g = np.array([0.3, -0.2, 0.5])[:dim] * (1.0 + tab['phase'] / 4)
+        if phase != 'options' and (not case.get('only') or 'magnitude' in case['only']):
+            _magnitude_check(ctx, pym, pym.AssemblePoisson, dom, x_vector(X_RED[0], nel, tab),
+                             dict(material_property=KAPPA_LIST[0]), 'material_property', kind)
         for im, kappa in enumerate(KAPPA_LIST):
             if phase == 'options' or _only(case, mat=im):
                 continue
